@@ -461,6 +461,19 @@ def _canonicalise_branches(tree):
             n.test.ops = [_NEGCMP[type(n.test.ops[0])]()]
             n.body, n.orelse = n.orelse, n.body
             count += 1
+    # (c) `if c: x = A else: x = B` (one plain assignment to the same name on each side) is read as `x = A if c else B`
+    for owner in ast.walk(tree):
+        for fld in ("body", "orelse", "finalbody"):
+            blk = getattr(owner, fld, None)
+            if not (isinstance(blk, list) and blk and isinstance(blk[0], ast.stmt)):
+                continue
+            for i, st in enumerate(blk):
+                if isinstance(st, ast.If) and len(st.body) == 1 and len(st.orelse) == 1 and all(
+                        isinstance(x, ast.Assign) and len(x.targets) == 1 and isinstance(x.targets[0], ast.Name) for x in (st.body[0], st.orelse[0])) \
+                        and st.body[0].targets[0].id == st.orelse[0].targets[0].id:
+                    new = ast.Assign(targets=[st.body[0].targets[0]], value=ast.IfExp(test=st.test, body=st.body[0].value, orelse=st.orelse[0].value))
+                    blk[i] = ast.fix_missing_locations(ast.copy_location(new, st))
+                    count += 1
     changed = True
     while changed:
         changed = False
@@ -782,6 +795,53 @@ def _fold_constant_tests(fnode):
     fnode.body = block(fnode.body) or [ast.Pass()]
 
 
+def _tail_returns_only(stmts):
+    """every return ends its block, and the blocks are the function body and the branches of if-statements in tail position (possibly de-nested: `if c: ... return` followed
+    by the rest); no return inside a loop, try or with"""
+    for i, st in enumerate(stmts):
+        if isinstance(st, ast.Return):
+            return i == len(stmts) - 1
+        if isinstance(st, ast.If):
+            has_ret = any(isinstance(x, ast.Return) for x in ast.walk(st))
+            if not has_ret:
+                continue
+            body_term = bool(st.body) and isinstance(st.body[-1], (ast.Return, ast.Raise))
+            if st.orelse:
+                return i == len(stmts) - 1 and _tail_block(st.body) and _tail_block(st.orelse)
+            if not body_term:
+                return False
+            return _tail_block(st.body) and _tail_returns_only(stmts[i + 1:]) and any(isinstance(x, (ast.Return, ast.Raise)) for x in stmts[i + 1:][-1:] or [None])
+        if any(isinstance(x, ast.Return) for x in ast.walk(st)):
+            return False
+    return True
+
+
+def _tail_block(stmts):
+    if not stmts:
+        return False
+    if isinstance(stmts[-1], ast.Raise):
+        return not any(isinstance(x, ast.Return) for s_ in stmts[:-1] for x in ast.walk(s_))
+    return _tail_returns_only(stmts) and isinstance(stmts[-1], (ast.Return, ast.If))
+
+
+def _renest_returns(stmts, mk):
+    """statement list in which every `return E` is replaced by mk(E), with the code after a returning `if` moved into its else branch so that control flow is kept"""
+    out = []
+    for i, st in enumerate(stmts):
+        if isinstance(st, ast.Return):
+            r_ = mk(st.value)
+            out.extend(r_ if isinstance(r_, list) else [r_])
+            return out
+        if isinstance(st, ast.If) and any(isinstance(x, ast.Return) for x in ast.walk(st)):
+            rest = stmts[i + 1:]
+            orelse = _renest_returns(st.orelse, mk) if st.orelse else (_renest_returns(rest, mk) if rest else [])
+            new = ast.If(test=st.test, body=_renest_returns(st.body, mk), orelse=orelse)
+            out.append(new)
+            return out
+        out.append(st)
+    return out
+
+
 # method names that numpy arrays / containers / strings also have: a call obj.<name>(...) on an unknown receiver is not taken for the package's method
 _BUILTIN_METHOD_NAMES = {"copy", "sum", "mean", "max", "min", "std", "var", "any", "all", "sort", "reshape", "get", "items", "keys", "values", "update", "append", "insert",
                          "remove", "pop", "index", "count", "format", "join", "split", "astype", "dot", "take", "repeat", "fill", "flatten", "ravel", "transpose", "choice",
@@ -968,7 +1028,8 @@ class Program:
                     return False
             rets = [x for x in ast.walk(n) if isinstance(x, ast.Return)]
             if len(rets) > 1 or (rets and rets[0] is not body[-1]):
-                return False
+                # several returns are fine when each one ends its branch of an if-chain (no return inside a loop / try / with)
+                return _tail_returns_only(body)
             return True
 
         helpers = {id(h.node): h for h in self.all_functions() if eligible(h)}
@@ -1087,6 +1148,29 @@ class Program:
                         return ast.copy_location(ast.Name(id=n.id + tag, ctx=n.ctx), n)
                     return n
             body = [Ren().visit(b) for b in body]
+            nret = sum(1 for b in body for x in ast.walk(b) if isinstance(x, ast.Return))
+            if nret > 1 or (nret == 1 and not isinstance(body[-1], ast.Return)):
+                # branch-structured helper: every `return E` becomes the caller's own statement with E
+                def mk(e):
+                    e = e if e is not None else ast.Constant(value=None)
+                    if kind == "assign":
+                        tg = target_stmt.targets[0] if len(target_stmt.targets) == 1 else None
+                        if isinstance(tg, ast.Tuple) and isinstance(e, ast.Tuple) and len(tg.elts) == len(e.elts) and all(isinstance(x, ast.Name) for x in tg.elts):
+                            names_ = {x.id for x in tg.elts}
+                            if not any(isinstance(n_, ast.Name) and n_.id in names_ for v_ in e.elts for n_ in ast.walk(v_)):
+                                # a, b = (x, y) with independent sides is a = x ; b = y
+                                return [ast.Assign(targets=[copy.deepcopy(t_)], value=v_) for t_, v_ in zip(tg.elts, e.elts)]
+                        return ast.Assign(targets=copy.deepcopy(target_stmt.targets), value=e)
+                    if kind == "aug":
+                        return ast.AugAssign(target=copy.deepcopy(target_stmt.target), op=target_stmt.op, value=e)
+                    if kind == "return":
+                        return ast.Return(value=e)
+                    return ast.Expr(value=e)
+                out = pre + _renest_returns(body, mk)
+                for o in out:
+                    ast.copy_location(o, target_stmt)
+                    ast.fix_missing_locations(o)
+                return out
             out = pre + body
             last = out[-1] if out else None
             retval = None
@@ -1108,7 +1192,7 @@ class Program:
                     rn = {}
                     for t_, r_ in pairs:
                         nstore = sum(1 for b in out for n in ast.walk(b) if isinstance(n, ast.Name) and n.id == r_.id and isinstance(n.ctx, ast.Store))
-                        if r_.id.endswith(tag) and nstore == 1 and t_.id not in argnames and t_.id not in bodynames and r_.id not in rn and t_.id not in rn.values():
+                        if r_.id.endswith(tag) and nstore >= 1 and t_.id not in argnames and t_.id not in bodynames and r_.id not in rn and t_.id not in rn.values():
                             rn[r_.id] = t_.id
                     if len(rn) == len(pairs):
                         for b in out:
@@ -1163,6 +1247,68 @@ class Program:
                     out.append(st)
             return out
 
+        # a helper that is one `return <expression>` is put in wherever it is called (an `if h(a, b):` test, an operand), when the arguments are call-free expressions
+        exprh = {k: h for k, h in helpers.items() if len(body_nodoc(h.node)) == 1 and isinstance(body_nodoc(h.node)[0], ast.Return) and body_nodoc(h.node)[0].value is not None}
+        prog = self
+
+        def pure(e):
+            return not any(isinstance(x, (ast.Call, ast.NamedExpr, ast.Await, ast.Yield, ast.YieldFrom, ast.Lambda)) for x in ast.walk(e))
+
+        class ExprInline(ast.NodeTransformer):
+            def __init__(self_, m, cls, g):
+                self_.m, self_.cls, self_.g = m, cls, g
+
+            def visit_Call(self_, call):
+                self_.generic_visit(call)
+                h, skip = prog._resolve_callee(self_.m, self_.cls, call)
+                if h is None or id(h.node) not in exprh or h.node is self_.g.node:
+                    return call
+                if any(isinstance(a, ast.Starred) for a in call.args) or any(k.arg is None for k in call.keywords):
+                    return call
+                a = h.node.args
+                params = [x.arg for x in a.args]
+                if skip:
+                    recv, params = params[0], params[1:]
+                    if not (isinstance(call.func, ast.Attribute) and isinstance(call.func.value, ast.Name) and call.func.value.id == recv):
+                        return call
+                if len(call.args) > len(params):
+                    return call
+                bind = dict(zip(params, call.args))
+                for k in call.keywords:
+                    if k.arg in bind or k.arg not in params + [x.arg for x in a.kwonlyargs]:
+                        return call
+                    bind[k.arg] = k.value
+                nd = len(a.defaults)
+                dm = {x.arg: d for x, d in zip(a.args[len(a.args) - nd:], a.defaults)}
+                dm.update({x.arg: d for x, d in zip(a.kwonlyargs, a.kw_defaults) if d is not None})
+                for p_ in params + [x.arg for x in a.kwonlyargs]:
+                    if p_ not in bind:
+                        if p_ not in dm:
+                            return call
+                        bind[p_] = dm[p_]
+                if not all(pure(v) for v in bind.values()):
+                    return call
+                expr = copy.deepcopy(body_nodoc(h.node)[0].value)
+
+                class Sub(ast.NodeTransformer):
+                    def visit_Name(s2, n):
+                        if isinstance(n.ctx, ast.Load) and n.id in bind:
+                            return copy.deepcopy(bind[n.id])
+                        return n
+                expr = Sub().visit(expr)
+                counter[0] += 1
+                return ast.fix_missing_locations(ast.copy_location(expr, call))
+
+        if exprh:
+            for m in self.modules.values():
+                for g in list(m.functions.values()):
+                    g.node.body = [ExprInline(m, None, g).visit(st) for st in g.node.body]
+                for K in m.classes.values():
+                    funcs = list(K.methods.values())
+                    for pinfo in K.own_props.values():
+                        funcs += [x for x in (pinfo.getter, pinfo.setter) if x is not None]
+                    for g in funcs:
+                        g.node.body = [ExprInline(m, K, g).visit(st) for st in g.node.body]
         for m in self.modules.values():
             for g in list(m.functions.values()):
                 g.node.body = block(m, None, g, g.node.body)
